@@ -3,6 +3,7 @@ package main
 import (
 	"context"
 	"fmt"
+	"math"
 	"net"
 	"os"
 	"path/filepath"
@@ -144,6 +145,12 @@ func busStartOpts(o server.Options, clients func(nc *nats.Conn) []client.RunStop
 		if ns, err := client.GetNodes(nc, "root", "all", "", false); err == nil && len(ns) > 0 {
 			nodes = ns
 		}
+	}
+	// the point is visible in the store before its handler has rebroadcast it; a request the store refuses (a NaN
+	// value: it changes nothing) is answered by the same handler goroutine, hence after that rebroadcast
+	syncPts := data.Points{{Type: "verifSync", Value: math.NaN()}}
+	if pb, err := syncPts.ToPb(); err == nil {
+		_, _ = nc.Request("p."+b.root.ID, pb, 5*time.Second)
 	}
 	return b, nil
 }
